@@ -12,7 +12,9 @@
 #if !defined NOP
 # define NOP 4
 #endif
-#define NOID 3
+#if !defined NOID
+# define NOID 3
+#endif
 #define ARR_MAX 1
 #define INPUTS XA(oid, NOID) XA(op, NOP) XA(who, NOP) XA(which, NOP) X(root)
 #include "sym.h"
@@ -70,7 +72,7 @@ void harness(void)
 		if (b == NULL) return;
 		b->t = &TB;
 		CHECK(get_task(TA.oid) == a && get_task(TB.oid) == b, "both UIDs map to their own task after the table grew");
-		CHECK(get_task((echs_toid_t)in.oid[2]) == NULL, "a UID never stored is not found");
+		CHECK(get_task((echs_toid_t)in.oid[NOID - 1]) == NULL, "a UID never stored is not found");
 		WITNESS_POINT();
 		return;
 	}
